@@ -31,7 +31,7 @@ Section Sub.
     - split; intros; discriminate.
     - destruct IHn as [IHk IHo]. split.
       + intros k j H.
-        change (leaf_extra k j && valid_kind_body sw (valid_kind_x sw pok n) (valid_obj_x sw pok n) k j = true) in H.
+        change (leaf_extra sw k j && valid_kind_body sw (valid_kind_x sw pok n) (valid_obj_x sw pok n) k j = true) in H.
         change (valid_kind_body sw (valid_kind sw pok n) (valid_obj sw pok n) k j = true).
         apply andb_true_iff in H. destruct H as [_ H]. revert H. apply valid_kind_body_mono; auto.
       + intros c j H.
@@ -294,7 +294,7 @@ Section BinaryClause.
     intros Hs H. simpl in H. destruct v; try discriminate. rewrite Hs in H.
     destruct (all_ascii s && b64_strict s) eqn:E; try discriminate. inversion H; subst. split; auto.
     apply andb_true_iff in E. destruct E as [_ E].
-    change (leaf_extra KBinary (JStr s) && valid_kind_body sp (valid_kind_x sp pok n) (valid_obj_x sp pok n) KBinary (JStr s) = true).
+    change (leaf_extra sp KBinary (JStr s) && valid_kind_body sp (valid_kind_x sp pok n) (valid_obj_x sp pok n) KBinary (JStr s) = true).
     simpl. rewrite (b64_strict_sound _ E). reflexivity.
   Qed.
 End BinaryClause.
